@@ -515,7 +515,8 @@ class MQTTBaseProtocol(Protocol):
             self._pingReq.timer.stop()
             self._pingReq.timer = None
         if self._pingReq.alarm:
-            self._pingReq.alarm.cancel()
+            if self._pingReq.alarm.active():    # it has already run if the ping timed out
+                self._pingReq.alarm.cancel()
             self._pingReq.alarm = None
         self.doConnectionLost(reason)
         self.state = self.IDLE
